@@ -18,6 +18,7 @@ CONSTANTS
  Msgs <- MC_Msgs
  MaxExtra <- MC_MaxExtra
  EMIT <- MC_EMIT
+ ListOrders <- MC_ListOrders
 INIT Init
 NEXT Next
 CHECK_DEADLOCK FALSE
